@@ -280,6 +280,11 @@ func (s scenario) sched() sched.Scenario {
 				name = st.name
 			}
 			w.ev(event{Kind: "removed", Stream: name, Peer: peerId, Res: strings.Join(tags, ",")})
+			// the hook is documented to run outside the pool lock, so it may use the pool (as a handler cleaning
+			// up its per-stream state would): a read that takes the pool lock
+			if !w.cleanup {
+				_ = w.pool.Streams("t1")
+			}
 		}
 		w.pool = streampool.NewStreamPool(&handler{w}, streampool.StreamConfig{SendQueueSize: 2, DialQueueWorkers: s.workers(), DialQueueSize: s.dialQ()}, streampool.WithStreamCloseHook(hook))
 		if err := w.pool.Run(context.Background()); err != nil {
